@@ -1,7 +1,7 @@
 /-
 Shape tie (Packet): the state the model carries is exactly the state the Rust structs carry.
-`Generated/Shapes.lean` is re-read from /repo/src on every run (field names, declaration order, types
-as written). The model was written against the field lists below – `Model/Packet.lean` `Packet` = (header, token, options as a sorted association list, payload); `Model/Header.lean` `Header` = (vtt byte, code, mid).
+`Generated/Shapes.lean` is re-read from /repo/src on every run (field names, types as written up to
+module paths and lifetimes; order is irrelevant). The model was written against the field lists below – `Model/Packet.lean` `Packet` = (header, token, options as a sorted association list, payload); `Model/Header.lean` `Header` = (vtt byte, code, mid).
 A field added to, removed from or retyped in one of these structs (a memo, a marker, a digest instead
 of the data, a narrower counter) makes the corresponding `rfl` fail: the hand-written model then no
 longer accounts for all the state of the code, whatever the correspondence runs happen to explore.
@@ -11,12 +11,12 @@ import CoapLite.Generated.Shapes
 namespace CoapLite.ShapeTie
 
 theorem packet : Shapes.packet =
-    [("header", "Header"), ("token", "Vec<u8>"), ("options", "BTreeMap<u16,LinkedList<Vec<u8>>>"), ("payload", "Vec<u8>")] := rfl
+    [("header", "Header"), ("options", "BTreeMap<u16,LinkedList<Vec<u8>>>"), ("payload", "Vec<u8>"), ("token", "Vec<u8>")] := rfl
 
 theorem header : Shapes.header =
-    [("ver_type_tkl", "u8"), ("code", "MessageClass"), ("message_id", "u16")] := rfl
+    [("code", "MessageClass"), ("message_id", "u16"), ("ver_type_tkl", "u8")] := rfl
 
 theorem headerRaw : Shapes.headerRaw =
-    [("ver_type_tkl", "u8"), ("code", "u8"), ("message_id", "u16")] := rfl
+    [("code", "u8"), ("message_id", "u16"), ("ver_type_tkl", "u8")] := rfl
 
 end CoapLite.ShapeTie
